@@ -529,6 +529,43 @@ theorem tokenGroups_eq (claims : List (Str × Claim)) :
     · cases c <;> simp [claimGroupValues, hk]
     · simp [claimGroupValues, hk]
 
+/-! ### FromIncomingContext -/
+
+theorem mdLookup_foldl_put (raw : MD) (key : Str) :
+    ∀ acc : MD, (raw.map (fun kv => toLower kv.1)).Nodup →
+      mdLookup (raw.foldl (fun out kv => mdPut out (toLower kv.1) kv.2) acc) key =
+        match raw.find? (fun kv => decide (toLower kv.1 = key)) with
+        | some kv => some kv.2
+        | none => mdLookup acc key := by
+  induction raw with
+  | nil => intro acc _; rfl
+  | cons kv rest ih =>
+    intro acc hnd
+    simp only [List.map_cons, List.nodup_cons] at hnd
+    simp only [List.foldl_cons]
+    rw [ih _ hnd.2, mdLookup_mdPut]
+    by_cases hk : toLower kv.1 = key
+    · have hnone : rest.find? (fun kv => decide (toLower kv.1 = key)) = none := by
+        rw [List.find?_eq_none]
+        intro x hx
+        simp only [decide_eq_true_eq]
+        intro hxk
+        apply hnd.1
+        rw [hk, ← hxk]
+        exact List.mem_map.mpr ⟨x, hx, rfl⟩
+      simp [List.find?, hk, hnone]
+    · simp [List.find?, hk]
+
+/-- the handlers' view of incoming metadata: a key is found under its lower-cased form, whatever
+    its case on arrival (keys that do not collide after lower-casing). -/
+theorem mdLookup_fromIncoming (raw : MD) (key : Str)
+    (hnd : (raw.map (fun kv => toLower kv.1)).Nodup) :
+    mdLookup (fromIncoming raw) key =
+      (raw.find? (fun kv => decide (toLower kv.1 = key))).map (·.2) := by
+  unfold fromIncoming
+  rw [mdLookup_foldl_put raw key [] hnd]
+  cases raw.find? (fun kv => decide (toLower kv.1 = key)) <;> rfl
+
 /-! ### listing -/
 
 theorem listed_facts (roc : Str) (groups : List Str) (id : Str) :
